@@ -15,6 +15,7 @@ mod ctx;
 mod windows;
 mod features;
 mod evalx;
+mod stream;
 mod props;
 
 use report::Outcome;
